@@ -115,7 +115,13 @@ def run_deductive(spec, res, tier):
             continue
         main = [o for o in obls if o.expect == 'proved']
         aux = [o for o in obls if o.expect != 'proved']
-        r1 = solve.discharge(main, timeout_ms=timeout, cvc5_timeout_ms=max(60000, timeout))
+        # obligations recorded as known findings (refuted / open on the pinned tree) get one short attempt: enough to notice that
+        # one has become provable, without spending the whole portfolio on them in every run
+        known_main = [o for o in main if (res.pid, key_of(o.name)) in KNOWN_OBL]
+        other_main = [o for o in main if (res.pid, key_of(o.name)) not in KNOWN_OBL]
+        r1 = solve.discharge(other_main, timeout_ms=timeout, cvc5_timeout_ms=max(60000, timeout))
+        if known_main:
+            r1.update(solve.discharge(known_main, timeout_ms=4000, use_cvc5=False, portfolio=False))
         r2 = solve.discharge(aux, timeout_ms=3000, use_cvc5=False)
         # retry unknowns once with a longer budget (load on the box must not flip verdicts)
         retry = [o for o in main if r1[o.name]['verdict'] == 'unknown' and (res.pid, key_of(o.name)) not in KNOWN_OBL]
